@@ -18,7 +18,7 @@ from ..symjax import Ctx, toobj
 from ..symjax import fp as FP
 from ..symjax.fpinterp import FPInterp, fp_sym_like
 from ..symjax.spmd import eval_spmd, fp_dev_interp
-from ..solve import Prover
+from ..solve import Prover, abstract_fp_arith
 from ..report import run_tasks, write_replay
 
 PID = 'C03'
@@ -73,6 +73,17 @@ def work(t):
   tag = f"{mode}|thr={t['thr']}|q={t['q']}|eps={t['eps']}|" + '+'.join('x'.join(map(str, s)) for s in shapes)
   thr = FP.fpv(np.float32(t['thr']))
   P = Prover(timeout_s=60, first_s=20.0)
+  _prove = P.prove
+  cuts = [0]
+
+  def prove_cut(name, goal, assume=(), **kw):
+    # cone cut: float arithmetic feeding the gate (statistics update, quantisation of a new root)
+    # is irrelevant to the gate and is abstracted to fresh values (sound for validity)
+    (g2, *a2), n = abstract_fp_arith([goal] + list(assume))
+    cuts[0] += n
+    kw.pop('nosplit', None)
+    return _prove(name, g2, a2, nosplit=True, **kw)
+  P.prove = prove_cut
   if mode == 'sharded':
     tr, state, opt, mesh = dsh.trace_sharded(c, params, 2)
   elif mode == 'quantized':
@@ -179,7 +190,7 @@ def work(t):
     res.append(r)
   return dict(results=res, violations=viol, errors=[], configs=1,
               samples=[dict(task=t, jaxpr_eqns=tr.n_eqns, preconditioners_checked=n_checked)],
-              extra=dict(jaxpr_eqns_total=tr.n_eqns, eval_s=round(time.time() - t0_, 2)))
+              extra=dict(jaxpr_eqns_total=tr.n_eqns, eval_s=round(time.time() - t0_, 2), fp_arith_terms_cut=cuts[0]))
 
 
 # ------------------------------------------------------------------------- replay
@@ -321,7 +332,8 @@ def run(rep):
   rep.bounds = dict(tasks=len(ts), thresholds=THRS, matrix_epsilon=[0.0, 2.0 ** -20], modes=['replicated', 'quantized(pmap, D=1)', 'sharded(D=2 declared)'],
                     q=sorted({t['q'] for t in ts}), shapes=sorted({str(t['shapes']) for t in ts}), step_counter='symbolic',
                     floats='all float32 bit patterns for roots, errors, old state, gradients')
-  rep.stubs = ['matrix_inverse_pth_root -> unconstrained float32 outputs (root any bits; error NaN or >= 0)']
+  rep.stubs = ['matrix_inverse_pth_root -> unconstrained float32 outputs (root any bits; error NaN or >= 0)',
+               'cone cut: floating-point arithmetic sub-terms feeding the gate are replaced by fresh float32 values (over-approximation)']
   rep.assumptions = ['reported error is NaN or non-negative (it is a maximum of absolute values)',
                      'accepted error implies finite root is a property of the root routine (C01), not of the gate']
   rep.outside = ['finiteness of the update itself for moderate gradients (G4, not attempted: needs range analysis of the float arithmetic)',
